@@ -2,14 +2,15 @@ CONSTANTS
   OptPoolSel = "small"
   OptArgSel = "two"
   MaxLen = 2
-  Steps = 2
-  ClassSel = "all"
-  FirstSel = "all"
+  Steps = 1
+  ClassSel = "nil"
+  FirstSel = "four"
   CollectMode = "bound"
   FbMode = "faithful"
   InlineHit = "identity"
 INIT Init
 NEXT Next
 INVARIANT Explained
+INVARIANT ShippedUsageFine
 INVARIANT Emit
 CHECK_DEADLOCK FALSE
